@@ -79,6 +79,9 @@ def _states_base(tier, seed):
         b0 += [("ZM-VFNS", "FL_total", "NC", 1e5), ("FFNS4", "F3_total", "CC", 300.0), ("FFN04", "F2_total", "EM", 300.0), ("FONLL-FFN03", "F2_total", "NC", 30.0), ("FFNS3", "g1_total", "NC", 30.0), ("FFNS4", "F2_top", "NC", 1e5)]
     for sc, o, p, q2 in b0:
         out.append({"t": "beta0", "scheme": sc, "obs": o, "process": p, "Q2": q2})
+    # the pure-singlet rows of single-flavour massless observables at O(a_s^2) are populated for exactly the n_f active quarks
+    for (obs, proc), (sc, q2) in itertools.product([("F2_charm", "CC"), ("F2_charm", "NC"), ("FL_charm", "CC"), ("F2_bottom", "NC")], [("ZM-VFNS", 10.0), ("ZM-VFNS", 30.0), ("ZM-VFNS", 1e5), ("FFNS5", 30.0), ("FFNS4", 30.0)]):
+        out.append({"t": "psrows", "obs": obs, "process": proc, "scheme": sc, "Q2": q2})
     # non monotone thresholds
     for k in [(4.0, 1.0, 1.0), (1.0, 1.0, 0.01), (1.0, 40.0, 1.0)]:
         out.append({"t": "nonmono", "k": list(k), "Q2": 30.0})
@@ -128,7 +131,25 @@ def _states_deep(seed):
 
 def execute(st):
     yrun.reset_memos()
-    return {"zm": _zm, "ff": _ff, "beta0": _beta0, "nonmono": _nonmono}[st["t"]](st)
+    return {"zm": _zm, "ff": _ff, "beta0": _beta0, "nonmono": _nonmono, "psrows": _psrows}[st["t"]](st)
+
+
+def _psrows(st):
+    fns, nfff = cards.SCHEMES[st["scheme"]]
+    nf = ref_nf_zm((1.51, 4.92, 172.5), (1.0, 1.0, 1.0), st["Q2"]) if fns == "ZM-VFNS" else nfff
+    ihq = {"charm": 4, "bottom": 5}[st["obs"].split("_")[1]]
+    out, s0 = rel.try_run({"scheme": st["scheme"], "process": st["process"], "pto": 2, "theory": {"RenScaleVar": False, "FactScaleVar": False}}, {st["obs"]: [cards.kin(x, st["Q2"]) for x in XS]})
+    if s0 != "ok":
+        return {"violations": [], "nontrivial": False, "outcome": s0, "transitions": 1, "info": {"n_" + s0.split(":")[0]: 1}}
+    viol = []
+    massless = ihq <= nf  # otherwise the observable is massive / absent: nothing to say here
+    for i in range(len(XS)):
+        rows = _nonzero_quark_rows(yrun.tensors(out[st["obs"]][i])[(2, 0, 0, 0)][0])
+        exp = sorted([q for q in range(1, nf + 1)] + [-q for q in range(1, nf + 1)])
+        if massless and rows != exp:
+            viol.append(_v(st, "ps-rows", f"{st['obs']} {st['process']} {st['scheme']} Q2={st['Q2']}: the O(a_s^2) operator has quark rows {rows}; with n_f={nf} active flavours the pure-singlet piece populates +-1..+-{nf}"))
+            break
+    return {"violations": viol[:1], "nontrivial": massless, "outcome": f"nf={nf}:{massless}", "transitions": 1}
 
 
 def _masses(m, k, qm=None):
